@@ -60,6 +60,7 @@ def run(pid, tier, families, t0, extra_assume=(), level="model_checking", strict
     stats = {"cases": 0, "ok": 0, "known": 0, "skip": 0, "violation": 0}
     samples = []
     nontriv = set()
+    okprogs = []     # a sample of programs the reference evaluates successfully (used by follow-up legs)
     only = os.environ.get("VERIF_ONLY")
     for name, over, sim in families:
         if only and name not in only.split(","):
@@ -88,6 +89,8 @@ def run(pid, tier, families, t0, extra_assume=(), level="model_checking", strict
         res = C.proc_map(hp, (worker_for or {}).get(name) or worker or work, cases, chunk=300)
         for c, x in zip(cases, res):
             stats["cases"] += 1
+            if c["expect"]["k"] == "ok" and len(okprogs) < 3000 and stats["cases"] % 7 == 0:
+                okprogs.append(c["prog"])
             st = x["status"]
             if st == "toolerr":
                 raise C.ToolError("renderer/parser mismatch: %r" % (x,))
@@ -104,7 +107,14 @@ def run(pid, tier, families, t0, extra_assume=(), level="model_checking", strict
             if st == "ok" and len(samples) < 6 and len(c["ops"]) >= 8 and (stats["cases"] % 97 == 1):
                 samples.append({"family": name, "text": x["text"], "expect": P._show_spec(c["expect"])})
     if after:
-        after(rep, stats)
+        try:
+            after(rep, stats, okprogs)
+        except TypeError:
+            after(rep, stats)
+    import collections
+    kc = collections.Counter(k for k, _ in rep.violations)
+    if kc:
+        C.log("[%s] disagreement keys: %r" % (pid, dict(kc)))
     code = rep.finish()
     C.write_evidence(pid, tier, level, {
         "states": states, "transitions": trans,
